@@ -118,9 +118,7 @@ Definition thread_body (c : content) (t : ithread) (st : dstate) : W ((N * memde
   ret ((it_tid t, fst r1, cl), (blocks2, cc')).
 
 Definition sec_thread_list (c : content) (st : dstate) : W (dirent * dstate) :=
-  h <- w_alloc (KStreamHdr T_THREADS) (le 4 (N.of_nat (length (ic_threads c)))) ;;
-  r <- w_array THREAD_SZ enc_thread3 (thread_body c) false (KArray T_THREADS) (ic_threads c) st ;;
-  ret ((T_THREADS, span h (fst r)), snd r).
+  w_span_array THREAD_SZ enc_thread3 (thread_body c) false T_THREADS (le 4 (N.of_nat (length (ic_threads c)))) (ic_threads c) st.
 
 (* ---------- module list ---------- *)
 Definition module_body (m : imodule) (u : unit) : W ((imodule * loc * loc) * unit) :=
@@ -134,9 +132,8 @@ Definition keep {R : Type} (r : R) (u : unit) : W (R * unit) := ret (r, u).
 
 Definition sec_modules (c : content) : W dirent :=
   rs <- w_collect module_body (ic_modules c) tt ;;
-  h <- w_alloc (KStreamHdr T_MODULES) (le 4 (N.of_nat (length (fst rs)))) ;;
-  a <- w_array MODULE_SZ enc_module keep true (KArray T_MODULES) (fst rs) tt ;;
-  ret (T_MODULES, span h (fst a)).
+  r <- w_span_array MODULE_SZ enc_module keep true T_MODULES (le 4 (N.of_nat (length (fst rs)))) (fst rs) tt ;;
+  ret (fst r).
 
 (* ---------- application memory, memory list, exception ---------- *)
 Fixpoint sec_app_memory (regions : list (N * bytes)) (blocks : list memdesc) : W (list memdesc) :=
@@ -146,9 +143,8 @@ Fixpoint sec_app_memory (regions : list (N * bytes)) (blocks : list memdesc) : W
   end.
 
 Definition sec_memory_list (blocks : list memdesc) : W dirent :=
-  h <- w_alloc (KStreamHdr T_MEMLIST) (le 4 (N.of_nat (length blocks))) ;;
-  a <- w_array MEMDESC_SZ enc_memdesc keep true (KArray T_MEMLIST) blocks tt ;;
-  ret (T_MEMLIST, span h (fst a)).
+  r <- w_span_array MEMDESC_SZ enc_memdesc keep true T_MEMLIST (le 4 (N.of_nat (length blocks))) blocks tt ;;
+  ret (fst r).
 
 Definition sec_exception (c : content) (cc : crashctx) : W dirent :=
   let ctxloc := match cc with CNone => zero_loc | CCtx l => l | CCtxAddr l _ => l end in
@@ -169,9 +165,9 @@ Definition sec_sysinfo (c : content) : W dirent :=
 
 (* ---------- memory-info list ---------- *)
 Definition sec_meminfo (c : content) : W dirent :=
-  h <- w_alloc (KStreamHdr T_MEMINFO) (le 4 16 ++ le 4 48 ++ le 8 (N.of_nat (length (ic_meminfo c)))) ;;
-  a <- w_array MEMINFO_SZ enc_meminfo keep true (KArray T_MEMINFO) (ic_meminfo c) tt ;;
-  ret (T_MEMINFO, span h (fst a)).
+  r <- w_span_array MEMINFO_SZ enc_meminfo keep true T_MEMINFO
+         (le 4 16 ++ le 4 48 ++ le 8 (N.of_nat (length (ic_meminfo c)))) (ic_meminfo c) tt ;;
+  ret (fst r).
 
 (* ---------- copied files, soft-error stream: one raw object, or an unused entry when the step failed ---------- *)
 Definition sec_raw (ty : N) (content : option bytes) : W dirent :=
@@ -203,18 +199,17 @@ Definition sec_dso (c : content) : W dirent :=
 Definition name_body (t : N * list N) (u : unit) : W ((N * loc) * unit) :=
   nm <- w_string (snd t) ;; ret ((fst t, nm), u).
 Definition sec_names (c : content) : W dirent :=
-  h <- w_alloc (KStreamHdr T_NAMES) (le 4 (N.of_nat (length (ic_names c)))) ;;
-  a <- w_array NAME_SZ enc_name name_body false (KArray T_NAMES) (ic_names c) tt ;;
-  ret (T_NAMES, span h (fst a)).
+  r <- w_span_array NAME_SZ enc_name name_body false T_NAMES (le 4 (N.of_nat (length (ic_names c)))) (ic_names c) tt ;;
+  ret (fst r).
 
 (* ---------- open descriptors ---------- *)
 Definition handle_body (h : ihandle) (u : unit) : W ((ihandle * loc) * unit) :=
   nm <- w_string (ih_name h) ;; ret ((h, nm), u).
 Definition sec_handles (c : content) : W dirent :=
   rs <- w_collect handle_body (ic_handles c) tt ;;
-  h <- w_alloc (KStreamHdr T_HANDLES) (le 4 16 ++ le 4 32 ++ le 4 (N.of_nat (length (fst rs))) ++ le 4 0) ;;
-  a <- w_array HANDLE_SZ enc_handle keep true (KArray T_HANDLES) (fst rs) tt ;;
-  ret (T_HANDLES, span h (fst a)).
+  r <- w_span_array HANDLE_SZ enc_handle keep true T_HANDLES
+         (le 4 16 ++ le 4 32 ++ le 4 (N.of_nat (length (fst rs))) ++ le 4 0) (fst rs) tt ;;
+  ret (fst r).
 
 (* ---------- one step of the regenerated plan: the entry it hands to the directory (None: no entry) ---------- *)
 Definition raw_type (s : step) : N := match stream_type s with Some t => t | None => 0%N end.
